@@ -205,8 +205,10 @@ func checkC09(sc *Scenario, t *Truth) []Violation {
 					insts := t.ByRep[name]
 					shutDown := false
 					for _, c := range t.Calls {
-						if c.Op == "shutdown" && c.RetSeq >= 0 {
-							shutDown = true // after a project shutdown nothing is relaunched
+						if c.Op == "shutdown" && c.RetSeq >= 0 && len(insts) > 0 && insts[len(insts)-1].ExecSeq < c.RetSeq {
+							// after a project shutdown nothing is relaunched - unless somebody
+							// started the process again afterwards: then its policy applies anew
+							shutDown = true
 						}
 					}
 					if p := sc.specOfReplica(name); p != nil && len(insts) > 0 && restartOwed(p, insts[len(insts)-1].Code, 0) && !shutDown {
